@@ -35,6 +35,24 @@ var capSinks = map[string]string{
 	Mod + "/syntax.importURL":             "import",
 }
 
+// repoSinks resolves the module's own sink functions through Program.Func, so that a renamed helper is still a sink.
+var repoSinkCache map[*ssa.Function]string
+var repoSinkFor *Program
+
+func repoSinks(p *Program) map[*ssa.Function]string {
+	if repoSinkFor == p {
+		return repoSinkCache
+	}
+	repoSinkFor = p
+	repoSinkCache = map[*ssa.Function]string{}
+	for name, kind := range map[string]string{"StdScope": "unsafe-library", "importLocalFile": "import", "importExternalContent": "import", "importModuleFile": "import", "importURL": "import"} {
+		if f := p.Func("syntax", name); f != nil {
+			repoSinkCache[f] = kind
+		}
+	}
+	return repoSinkCache
+}
+
 var metaSinks = map[string]bool{"os.Stat": true, "os.Lstat": true, "os.ReadDir": true, "github.com/spf13/afero.Walk": true, "github.com/spf13/afero.ReadDir": true,
 	"github.com/spf13/afero.Exists": true, "github.com/spf13/afero.DirExists": true, "os.Getenv": true, "os.Getwd": true}
 
@@ -239,6 +257,12 @@ func capReach(p *Program, root *ssa.Function) (map[string][]string, map[string]b
 			return
 		}
 		seen[f] = true
+		if k, ok := repoSinks(p)[f]; ok {
+			if _, dup := caps[k+":"+f.String()]; !dup {
+				caps[k+":"+f.String()] = append([]string{}, path...)
+			}
+			return
+		}
 		if k, ok := capSinks[f.String()]; ok {
 			if _, dup := caps[k+":"+f.String()]; !dup {
 				caps[k+":"+f.String()] = append([]string{}, path...)
